@@ -18,7 +18,7 @@ for depth in (1, 2, 3):
             if depth == 3 and shape in ("100", "111") and op in ("remove", "entry_insert", "and_modify_or_insert", "get_mut"):
                 tier = "quick"
             name = "h_c01_%s_d%d_%s" % (op, depth, shape)
-            lines.append('// @h tier=%s bound="depth %d, A present per scope (bottom..top) %s, B in the bottom scope; op %s; all stored values and arguments" unwind=%d' % (tier, depth, shape, op, depth + 3))
+            lines.append('// @h tier=%s bound="depth %d, A present per scope (bottom..top) %s, B in the bottom scope; op %s; all stored values and arguments" unwind=%d mem=%d reclimit="%s=%d"' % (tier, depth, shape, op, depth + 3, 12 if (shape == "00" and op in ("and_modify_or_insert", "or_insert_with", "or_default", "entry_insert")) else 6, "mahf::state::(registry::)?StateRegistry::<.*>::find(_mut)?::<.*>", depth + 2))
             lines.append("h!(%s, %d, %s, %d, %d);" % (name, depth, arr, oi, depth + 3))
 src = os.path.join(os.path.dirname(__file__), "..", "..", "kani", "src", "c01.rs")
 s = open(src).read()
